@@ -572,7 +572,8 @@ impl<'a> Model<'a> {
                 self.th(c, h);
             }
             Ty::Range(k, e) => {
-                hs(h, &format!("core::ops::{}", k.rust()));
+                // `stringify!(core::ops::$ty)` inside the crate's macro yields spaced tokens: part of the published recipe
+                hs(h, &format!("core :: ops :: {}", k.rust()));
                 self.th(e, h);
             }
             Ty::RangeFull => hs(h, "core::ops::RangeFull"),
